@@ -13,7 +13,17 @@ constraint statement together with the signals it mentions.  The real findings
 (`--verbose --sarif-file`) — must be exactly one per recorded assignment,
 anchored at its range, CS0013 without secondaries or CS0005 with exactly the
 recorded constraint ranges; none for functions / custom templates / anything
-else."""
+else.  A `template parallel` is an ordinary template (findings demanded), only
+`template custom [parallel]` is exempt; the definition type of the dumped cfg is
+compared with the header the generator wrote.
+
+The hypothesis `keys_distinct` is (1) evaluated by the model and re-computed in
+Python on every dumped cfg, (2) tied to the source: the `sig` substitutions of
+the cfg must be exactly the `<--` statements the generator wrote (location,
+name, component path — `subkeys_distinct`, proved to imply `keys_distinct`) and
+those must be pairwise distinct, (3) self-tested on every run with a real dump
+in which one statement is duplicated.  It fails on the known-finding class
+`decl-tuple-dup-name` (`signal (b, b) <-- ..`), and only there."""
 import collections
 import concurrent.futures
 import glob
